@@ -14,6 +14,8 @@ import (
 	sdk "github.com/cosmos/cosmos-sdk/types"
 	banktypes "github.com/cosmos/cosmos-sdk/x/bank/types"
 	"github.com/cosmos/cosmos-sdk/x/feegrant"
+	govv1 "github.com/cosmos/cosmos-sdk/x/gov/types/v1"
+	paramproposal "github.com/cosmos/cosmos-sdk/x/params/types/proposal"
 	abci "github.com/tendermint/tendermint/abci/types"
 	"pgregory.net/rapid"
 )
@@ -91,10 +93,10 @@ func (c *c10World) block(dt int64) {
 func (c *c10World) gov(msg sdk.Msg, what string) bool {
 	res := RunMsg(c.w.App, c.ctx.WithBlockTime(nsTime(c.now)).WithBlockHeight(c.height), msg)
 	if res.Panic != nil {
-		// a panicking governance message is C20's business; here it simply is a failed tx
-		c.note("%s: panic %v", what, res.Panic)
-		c.classes["gov_msg_panicked"] = true
-		return false
+		// x/gov (SDK 0.46) executes the messages of a passed proposal in its EndBlocker without recover():
+		// a panicking handler of a governance message is not a failed transaction, it stops every node in
+		// EndBlock, and again at every restart (the proposal stays in the queue)
+		c.t.Fatalf("%s: the handler panicked: %v - executed by x/gov in EndBlock this halts the chain\nhistory:\n%s", what, res.Panic, jsonStr(c.log))
 	}
 	if res.Err != nil {
 		c.note("%s: rejected: %v", what, firstLine(res.Err.Error()))
@@ -210,6 +212,21 @@ func TestC10(t *testing.T) {
 					c.classes["fee_allowance_for_module_address_accepted"] = true
 				}
 			},
+			"legacy_param_change_proposal": func(t *rapid.T) {
+				// until v1.2.0 the custom modules' parameters were changed with x/params proposals; such a proposal can
+				// still be submitted and passed (the subspaces exist) - x/gov executes it in EndBlock
+				ch := []paramproposal.ParamChange{
+					{Subspace: "cfevesting", Key: "Denom"}, {Subspace: "cfeminter", Key: "MintDenom"}, {Subspace: "cfeminter", Key: "MinterConfig"},
+					{Subspace: "cfedistributor", Key: "SubDistributors"},
+				}[rapid.IntRange(0, 3).Draw(t, "legacyKey")]
+				ch.Value = []string{`"uatom"`, `"x"`, `[]`, `{}`, `not json`, `""`}[rapid.IntRange(0, 5).Draw(t, "legacyValue")]
+				m, err := govv1.NewLegacyContent(paramproposal.NewParameterChangeProposal("t", "d", []paramproposal.ParamChange{ch}), GovAuthority())
+				if err != nil {
+					panic(err)
+				}
+				c.gov(m, fmt.Sprintf("legacy parameter change proposal %s/%s=%s", ch.Subspace, ch.Key, ch.Value))
+				c.classes["legacy_param_change_proposal"] = true
+			},
 			"update_minter": func(t *rapid.T) {
 				cur := c.w.App.CfeminterKeeper.GetMinterState(c.ctx).SequenceId
 				n := GenMinterCfg(t, 5, 60, 36)
@@ -272,6 +289,16 @@ func TestC10(t *testing.T) {
 						t.Skip("no shares")
 					}
 					nm := names[rapid.IntRange(0, len(names)-1).Draw(t, "share")]
+					switch rapid.IntRange(0, 7).Draw(t, "staleName") {
+					case 0:
+						nm[1] = "renamed_meanwhile" // a share that another proposal renamed or removed meanwhile
+					case 1:
+						nm[1] = nm[0] + "_primary"
+					case 2:
+						nm[1] = names[rapid.IntRange(0, len(names)-1).Draw(t, "otherShare")][1] // a share of (possibly) another sub-distributor
+					case 3:
+						nm[0] = "no_such_subdistributor"
+					}
 					budget := bigFromStr("1000000000000000000")
 					v := genShare18(t, "newshare", budget)
 					if c.gov(&distrtypes.MsgUpdateSubDistributorDestinationShareParam{Authority: GovAuthority(), SubDistributorName: nm[0], DestinationName: nm[1], Share: dec18(v)}, "MsgUpdateSubDistributorDestinationShareParam "+nm[1]+"="+v) {
@@ -282,7 +309,11 @@ func TestC10(t *testing.T) {
 					i := rapid.IntRange(0, len(c.dcfg.Subs)-1).Draw(t, "which")
 					budget := bigFromStr("1000000000000000000")
 					v := genShare18(t, "newburn", budget)
-					if c.gov(&distrtypes.MsgUpdateSubDistributorBurnShareParam{Authority: GovAuthority(), SubDistributorName: c.dcfg.Subs[i].Name, BurnShare: dec18(v)}, "MsgUpdateSubDistributorBurnShareParam "+c.dcfg.Subs[i].Name+"="+v) {
+					sdName := c.dcfg.Subs[i].Name
+					if rapid.IntRange(0, 7).Draw(t, "staleSub") == 0 {
+						sdName = "removed_meanwhile"
+					}
+					if c.gov(&distrtypes.MsgUpdateSubDistributorBurnShareParam{Authority: GovAuthority(), SubDistributorName: sdName, BurnShare: dec18(v)}, "MsgUpdateSubDistributorBurnShareParam "+c.dcfg.Subs[i].Name+"="+v) {
 						c.dcfg = cfgFromParams(c.run.K.GetParams(c.ctx))
 						c.classes["burn_share_updated"] = true
 					}
